@@ -25,12 +25,26 @@ Scope
               incidence sets, with rotating choices of which node / edge records are present (all, some, none, an extra
               isolated node record, an edge record without incidences), attrs / weight fields, name types (str / int),
               incidence order, "type" present / absent, plus "directed" documents.
+              Histories: for every directly built object of the (smaller) universes below, every single edit of
+              each of these kinds is applied before saving - remove_node(v) for each node v; remove_node(v,
+              keep_edges=True) for each v where its meaning is unambiguous; remove_node(v) followed by re-adding v
+              with other metadata and one of its former hyperedges; remove_edge(r) for each record r; remove_edge(r)
+              followed by re-inserting r with another weight / metadata; a new node carrying metadata added and
+              removed again (isolated; and, for each node v, joined to v by a new hyperedge first, removed without
+              and with keep_edges); clear() + set_hypergraph_metadata + refill with part of the content (types that
+              have clear: not Multiplex); all nodes removed one by one (keep_edges alternating) and the object
+              refilled with part of the content under other metadata / weights.  Both formats.
+                quick    : H n<=3 k<=2; D n<=3 k<=2; T, M n<=3 k<=2
+                thorough : H n<=3 k<=3 and n=4 k<=2; D, T, M n<=3 k<=3 and n=4 k<=1
   sampled     Seeded random objects beyond the small scope (up to 7 nodes, hyperedges of size up to 5, up to 6 records,
               random nested metadata, isolated nodes, repeated node sets across times / layers, weight 0 excluded),
               objects whose hypergraph metadata was replaced through set_hypergraph_metadata (so it lacks the
               "weighted" entry the constructor puts there), objects that went through an insert-then-remove detour (a
-              node, a hyperedge) before being saved, random .hgr files (<= 8 vertices, <= 6 hyperedges) and
-              random HIF documents (<= 6 nodes, <= 3 edges).
+              node, a hyperedge) before being saved, random histories (a random object of <= 6 nodes and <= 5
+              records followed by 2-11 random steps: add_node of an absent label - possibly one removed earlier -,
+              add_edge of an absent record - possibly over a member the object does not hold -, remove_edge,
+              remove_edge + re-insertion, remove_node without / with keep_edges, clear), random .hgr files (<= 8
+              vertices, <= 6 hyperedges) and random HIF documents (<= 6 nodes, <= 3 edges).
 Oracle
   Round trip: the deep snapshot of the saved object taken through the public API only (type, is_weighted, get_nodes
   (metadata=True), get_edges, get_weight, get_edge_metadata, get_hypergraph_metadata) before saving is compared with
@@ -39,6 +53,16 @@ Oracle
   that the snapshot is compared with the generating description; if the container itself does not hold the intended
   content the case is skipped and counted (C01-C04's business).  Node metadata are (re)installed with
   set_node_metadata after the hyperedges where the container lost them (DirectedHypergraph.add_node resets them).
+  Histories: the abstract content (node -> metadata, record -> weight / metadata, hypergraph metadata) is computed
+  from the list of steps by model_step (plain dicts; only steps whose meaning is unambiguous are generated: no add of
+  something present, keep_edges never where a shrunk hyperedge would coincide with a present one nor on a directed
+  hyperedge).  The saved object must report exactly that content - node set = get_nodes(), node metadata =
+  get_node_metadata(n) for these nodes (Multiplex: get_nodes(metadata=True)[n]), hyperedges / weights / metadata as
+  above - otherwise the case is skipped and counted (the mutators are C01-C04's business).  The loaded object is then
+  compared with the abstract content through the same getters; get_nodes(metadata=True) of the loaded object is
+  compared as well whenever that of the saved object agreed with the abstract content.  So residue that removals
+  leave inside the saved object (stale metadata or adjacency entries) must not come back as nodes, hyperedges or
+  metadata of the loaded one, and nothing that the history left in place may be lost.
   hMETIS: a 12-line reference reader (whitespace tokens, '%' comments).  HIF: "one hyperedge per incidence set" up to
   a bijection between the file's node names and the nodes of the result (brute force), under which every node record
   must be what get_node_metadata returns, every edge record what get_edge_metadata returns and every incidence record
@@ -528,6 +552,391 @@ def roundtrip_case(rep, spec, fmt, tmpdir):
     return "done"
 
 
+# ------------------------------------------------------------------------------------------------ histories
+# An object that is saved need not have been built directly: it may have been reached through removals and detours.
+# A history is a list of json-able steps; its abstract content is computed by hist_model (plain dicts, written from
+# the meaning of the steps), the real object by apply_ops (public mutators only).
+REMOVING = ("remove_node", "remove_edge", "clear")
+
+
+def rec_ident(r):
+    """The identifying part of a record (what remove_edge needs)."""
+    return {k: copy.deepcopy(r[k]) for k in ("e", "t", "l") if k in r}
+
+
+def model_step(kind, st, op):
+    """Meaning of one step on the abstract content st = {nodes: {label: md}, recs: {key: record}, hmeta, exact}.
+    The generators only emit steps whose meaning is unambiguous: add_node of an absent node, add_edge of an absent
+    record (member nodes that are absent appear with empty metadata), remove_edge of a present record, remove_node
+    (without keep_edges: its hyperedges disappear; with keep_edges: they lose the node, an emptied one disappears,
+    never emitted when a shrunk hyperedge would coincide with a present one nor for a directed hyperedge),
+    clear followed by set_hypergraph_metadata."""
+    name = op[0]
+    if name == "add_node":
+        assert op[1] not in st["nodes"]
+        st["nodes"][op[1]] = copy.deepcopy(op[2])
+    elif name == "add_edge":
+        r = copy.deepcopy(op[1])
+        assert rec_key(kind, r) not in st["recs"]
+        for n in rec_nodes(kind, r):
+            st["nodes"].setdefault(n, {})
+        st["recs"][rec_key(kind, r)] = r
+    elif name == "remove_edge":
+        del st["recs"][rec_key(kind, op[1])]
+    elif name == "remove_node":
+        n, keep = op[1], op[2]
+        for k, r in list(st["recs"].items()):
+            if n in rec_nodes(kind, r):
+                del st["recs"][k]
+                if keep:
+                    assert kind != "D"
+                    rest = [x for x in r["e"] if x != n]
+                    if rest:
+                        r2 = dict(r, e=rest)
+                        assert rec_key(kind, r2) not in st["recs"]
+                        st["recs"][rec_key(kind, r2)] = r2
+        del st["nodes"][n]
+    elif name == "clear":
+        st["nodes"], st["recs"], st["hmeta"], st["exact"] = {}, {}, copy.deepcopy(op[1]), True
+    else:
+        raise ValueError(f"unknown step {name}")
+
+
+def hist_model(spec):
+    st = {"nodes": {}, "recs": {}, "hmeta": copy.deepcopy(spec["hmeta"]), "exact": False}
+    for op in spec["ops"]:
+        model_step(spec["kind"], st, op)
+    return st
+
+
+def apply_ops(h, kind, ops):
+    for op in ops:
+        name = op[0]
+        if name == "add_node":
+            h.add_node(op[1], metadata=copy.deepcopy(op[2]))
+        elif name == "add_edge":
+            add_edge(h, kind, op[1])
+        elif name == "remove_edge":
+            remove_edge(h, kind, op[1])
+        elif name == "remove_node":
+            if op[2]:
+                h.remove_node(op[1], keep_edges=True)
+            else:
+                h.remove_node(op[1])
+        elif name == "clear":
+            h.clear()
+            h.set_hypergraph_metadata(copy.deepcopy(op[1]))
+
+
+class Hist:
+    """History under construction together with its abstract content."""
+
+    def __init__(self, kind, weighted, hmeta):
+        self.kind, self.weighted, self.hmeta0, self.ops = kind, weighted, copy.deepcopy(hmeta), []
+        self.st = {"nodes": {}, "recs": {}, "hmeta": copy.deepcopy(hmeta), "exact": False}
+
+    def do(self, *op):
+        op = copy.deepcopy(list(op))
+        model_step(self.kind, self.st, op)
+        self.ops.append(op)
+
+    def incident(self, n):
+        return [r for r in self.st["recs"].values() if n in rec_nodes(self.kind, r)]
+
+    def can_keep(self, n):
+        """Is remove_node(n, keep_edges=True) unambiguous here?"""
+        inc = self.incident(n)
+        if inc and self.kind == "D":
+            return False
+        for r in inc:
+            rest = [x for x in r["e"] if x != n]
+            if rest and rec_key(self.kind, dict(r, e=rest)) in self.st["recs"]:
+                return False
+        return True
+
+    def spec(self, script):
+        return {"kind": self.kind, "weighted": self.weighted, "hmeta": copy.deepcopy(self.hmeta0),
+                "ops": copy.deepcopy(self.ops), "script": script}
+
+
+def base_hist(base):
+    hb = Hist(base["kind"], base["weighted"], base["hmeta"])
+    for n, md in base["nodes"]:
+        hb.do("add_node", n, md)
+    for r in base["records"]:
+        hb.do("add_edge", r)
+    return hb
+
+
+def _other(pool, old, i):
+    """A member of the pool different from old (rotating with i)."""
+    for j in range(len(pool)):
+        if pool[(i + j) % len(pool)] != old:
+            return copy.deepcopy(pool[(i + j) % len(pool)])
+    return copy.deepcopy(pool[0])
+
+
+def _refill(hb, base, i):
+    """Refill an emptied object with part of the base content: its first node (and what touches it) stays away, the
+    others come back with other metadata / weights."""
+    kind = hb.kind
+    gone = base["nodes"][0][0] if base["nodes"] else None
+    for u, (n, md) in enumerate(base["nodes"][1:]):
+        hb.do("add_node", n, _other(NODE_MD, md, i + u))
+    for j, r in enumerate(base["records"]):
+        if gone in rec_nodes(kind, r):
+            continue
+        hb.do("add_edge", dict(r, md=_other(EDGE_MD, r["md"], i + j),
+                               w=_other(WEIGHTS, r["w"], i + j) if hb.weighted else None))
+
+
+def scripted_histories(base, i, labelkind, has_clear):
+    """Every single edit of each kind on a directly built base object (i rotates the free choices)."""
+    kind, weighted = base["kind"], base["weighted"]
+    nodes = [n for n, _ in base["nodes"]]
+    z = "zz" if labelkind == "str" else 999
+    zmd = {"ghost": True, "attrs": {"i": i % 5}}
+    for v in nodes:
+        hb = base_hist(base)
+        hb.do("remove_node", v, False)
+        yield hb.spec("remove_node")
+        hb = base_hist(base)
+        if hb.can_keep(v):
+            hb.do("remove_node", v, True)
+            yield hb.spec("remove_node keep_edges")
+        hb = base_hist(base)
+        old, inc = hb.st["nodes"][v], hb.incident(v)
+        hb.do("remove_node", v, False)
+        hb.do("add_node", v, _other(NODE_MD, old, i))
+        if inc:
+            r = inc[i % len(inc)]
+            hb.do("add_edge", dict(r, md=_other(EDGE_MD, r["md"], i)))
+        yield hb.spec("re-inserted node")
+    for j, r in enumerate(base["records"]):
+        hb = base_hist(base)
+        hb.do("remove_edge", rec_ident(r))
+        yield hb.spec("remove_edge")
+        hb.do("add_edge", dict(r, md=_other(EDGE_MD, r["md"], i + j), w=_other(WEIGHTS, r["w"], i + j) if weighted else None))
+        yield hb.spec("re-inserted hyperedge")
+    hb = base_hist(base)
+    hb.do("add_node", z, zmd)
+    hb.do("remove_node", z, bool(i % 2))
+    yield hb.spec("added then removed node with metadata")
+    for u, v in enumerate(nodes):
+        e = [[[z], [v]], [[v], [z]]][(i + u) % 2] if kind == "D" else [[z, v], [v, z]][(i + u) % 2]
+        r = {"e": e, "md": copy.deepcopy(EDGE_MD[(i + u + 1) % len(EDGE_MD)]), "w": WEIGHTS[(i + u) % len(WEIGHTS)] if weighted else None}
+        if kind == "T":
+            r["t"] = TIMES[(i + u) % 2]
+        if kind == "M":
+            r["l"] = LAYERS[(i + u) % 2]
+        for keep in (False, True):
+            hb = base_hist(base)
+            hb.do("add_node", z, zmd)
+            hb.do("add_edge", r)
+            if keep and not hb.can_keep(z):
+                continue
+            hb.do("remove_node", z, keep)
+            yield hb.spec("added then removed node with metadata and a hyperedge" + (" (keep_edges)" if keep else ""))
+    if has_clear:
+        hb = base_hist(base)
+        hb.do("clear", HG_MD[(i + 1) % len(HG_MD)])
+        _refill(hb, base, i)
+        yield hb.spec("clear and refill")
+    hb = base_hist(base)
+    for u, v in enumerate(nodes):
+        hb.do("remove_node", v, bool((i + u) % 2) and hb.can_keep(v))
+    _refill(hb, base, i + 1)
+    yield hb.spec("emptied by removals and refilled")
+
+
+def hist_plans(quick):
+    if quick:
+        return {"H": [(0, 0), (1, 1), (2, 2), (3, 2)], "D": [(2, 2), (3, 2)], "T": [(1, 2), (2, 2), (3, 2)],
+                "M": [(1, 2), (2, 2), (3, 2)]}
+    return {"H": [(0, 0), (1, 1), (2, 3), (3, 3), (4, 2)], "D": [(2, 2), (3, 3), (4, 1)], "T": [(1, 2), (2, 3), (3, 3), (4, 1)],
+            "M": [(1, 2), (2, 3), (3, 3), (4, 1)]}
+
+
+def random_record(rng, hb, pool, max_size=4):
+    kind = hb.kind
+    cur = list(hb.st["nodes"])
+    for _ in range(6):
+        members = list(cur)
+        absent = [x for x in pool if x not in hb.st["nodes"]]
+        if absent and rng.random() < 0.15:
+            members.append(rng.choice(absent))  # a member the object does not hold yet: appears with empty metadata
+        if len(members) < (2 if kind == "D" else 1):
+            return None
+        if kind == "D":
+            ns = rng.sample(members, rng.randrange(2, min(len(members), max_size) + 1))
+            cut = rng.randrange(1, len(ns))
+            e = [ns[:cut], ns[cut:]]
+        else:
+            e = rng.sample(members, rng.randrange(1, min(len(members), max_size) + 1))
+        r = {"e": e, "md": rand_md(rng), "w": (rng.choice([1, 2, 5, 12, 0.5, 2.75, 1.0, 1e-3, 100]) if hb.weighted else None)}
+        if kind == "T":
+            r["t"] = rng.choice([0, 1, 2, 5, 17])
+        if kind == "M":
+            r["l"] = rng.choice(["a", "b", "layer 3"])
+        if rec_key(kind, r) not in hb.st["recs"]:
+            return r
+    return None
+
+
+def random_history(rng, kind, weighted, labelkind, has_clear):
+    base = random_spec(rng, kind, weighted, labelkind, max_nodes=6, max_recs=5, max_size=4)
+    hb = base_hist(base)
+    held = [n for n, _ in base["nodes"]]
+    extra = [x for x in ([61, 62, 63, 64] if labelkind == "int" else ["q", "n3", "33", "W"]) if x not in held]
+    pool = held + extra[:3]
+    for _ in range(rng.randrange(2, 11)):
+        c = rng.random()
+        nodes, recs = list(hb.st["nodes"]), list(hb.st["recs"].values())
+        if c < 0.18:
+            absent = [x for x in pool if x not in hb.st["nodes"]]
+            if absent:
+                hb.do("add_node", rng.choice(absent), rand_md(rng, 0.15))
+        elif c < 0.36:
+            r = random_record(rng, hb, pool)
+            if r is not None:
+                hb.do("add_edge", r)
+        elif c < 0.50:
+            if recs:
+                hb.do("remove_edge", rec_ident(rng.choice(recs)))
+        elif c < 0.60:
+            if recs:
+                r = rng.choice(recs)
+                hb.do("remove_edge", rec_ident(r))
+                hb.do("add_edge", dict(r, md=rand_md(rng), w=(rng.choice([3, 0.25, 8, 1.5]) if weighted else None)))
+        elif c < 0.95 or not has_clear:
+            if nodes:
+                v = rng.choice(nodes)
+                hb.do("remove_node", v, rng.random() < 0.45 and hb.can_keep(v))
+        else:
+            hb.do("clear", rand_md(rng))
+    if not any(op[0] in REMOVING for op in hb.ops) and hb.st["nodes"]:
+        hb.do("remove_node", list(hb.st["nodes"])[0], False)
+    return hb.spec("random")
+
+
+def node_view(h):
+    """Node metadata as reported node by node, for exactly the nodes get_nodes() lists."""
+    getter = getattr(h, "get_node_metadata", None)
+    allmd = None if getter is not None else h.get_nodes(metadata=True)
+    return {n: copy.deepcopy(getter(n) if getter is not None else allmd[n]) for n in h.get_nodes()}
+
+
+def conforms(snap, nview, spec, model):
+    """Does the object report exactly the abstract content of its history?  The node set is what get_nodes() lists,
+    node metadata what is reported for these nodes; get_nodes(metadata=True) is looked at separately."""
+    kind = spec["kind"]
+    if snap["type"] != KINDS[kind] or snap["weighted"] != spec["weighted"]:
+        return False
+    if len(snap["node_list"]) != len(model["nodes"]) or set(snap["node_list"]) != set(model["nodes"]):
+        return False
+    if nview != model["nodes"]:
+        return False
+    if set(snap["records"]) != set(model["recs"]):
+        return False
+    for k, r in model["recs"].items():
+        w, md = snap["records"][k]
+        if md != r["md"] or (spec["weighted"] and not (w == r["w"] and type(w) is type(r["w"]))):
+            return False
+    hm = snap["hmeta"]
+    if not isinstance(hm, dict):
+        return False
+    if model["exact"]:
+        return hm == model["hmeta"]
+    return all(k in hm and hm[k] == v for k, v in model["hmeta"].items())
+
+
+def hist_desc(spec, model, fmt):
+    kind = spec["kind"]
+    return {"k": kind, "w": spec["weighted"], "fmt": fmt, "script": spec["script"], "steps": len(spec["ops"]),
+            "h": zlib.crc32(json.dumps([spec["hmeta"], spec["ops"]], sort_keys=True).encode()),
+            "n": list(model["nodes"]), "r": [[r["e"], r.get("t", r.get("l"))] for r in model["recs"].values()]}
+
+
+def history_case(rep, spec, fmt, tmpdir, model=None):
+    """Save -> load of an object reached through a history; the loaded object is compared with the abstract content."""
+    from hypergraphx.readwrite import save_hypergraph, load_hypergraph
+    kind = spec["kind"]
+    tname = KINDS[kind]
+    tag = f" [{tname}/{fmt}]"
+    rp = {"part": "history", "spec": spec, "fmt": fmt}
+    model = model or hist_model(spec)
+    try:
+        with quiet():
+            h = new_container(spec)
+            apply_ops(h, kind, spec["ops"])
+            before, nv_before = snapshot(h), node_view(h)
+    except Exception:
+        return "history raised"
+    if not conforms(before, nv_before, spec, model):
+        return "history mismatch"
+    all_md_ok = before["nodes"] == model["nodes"]  # does get_nodes(metadata=True) of the saved object agree as well?
+    path = _fresh(tmpdir, "g." + fmt)
+    try:
+        with quiet():
+            save_hypergraph(h, path, binary=(fmt == "hgx"))
+    except Exception as ex:
+        rep.check(False, SAVE, RAISES, spec, observed=repr(ex), key=f"{SAVE}:{RAISES}{tag}", replay=rp)
+        return "save raised"
+    rep.check(True, SAVE, RAISES, spec)
+    try:
+        after, nv_after = snapshot(h), node_view(h)
+    except Exception as ex:
+        after, nv_after = {"getter raised": repr(ex)}, None
+    cl = "saving does not modify the object being saved"
+    rep.check(after == before and nv_after == nv_before, SAVE, cl, spec, expected=lambda: _show(before),
+              observed=lambda: _show(after) if "type" in after else after, key=f"{SAVE}:{cl}{tag}", replay=rp)
+    try:
+        with quiet():
+            g = load_hypergraph(path)
+    except Exception as ex:
+        rep.check(False, LOAD, RAISES, spec, observed=repr(ex), key=f"{LOAD}:{RAISES}{tag}", replay=rp)
+        return "load raised"
+    rep.check(True, LOAD, RAISES, spec)
+    cl = "returns an object of the same type"
+    if not rep.check(type(g) is type(h), LOAD, cl, spec, expected=tname, observed=type(g).__name__,
+                     key=f"{LOAD}:{cl}{tag}", replay=rp):
+        return "done"
+    try:
+        loaded, nv = snapshot(g), node_view(g)
+    except Exception as ex:
+        cl = "same hyperedges with their direction, times or layers"
+        rep.check(False, LOAD, cl, spec, observed="public getter of the loaded object raised " + repr(ex),
+                  key=f"{LOAD}:{cl} (getters raise){tag}", replay=rp)
+        return "done"
+
+    def chk(cond, cl, expected, observed):
+        rep.check(cond, LOAD, cl, spec, expected=expected, observed=observed, key=f"{LOAD}:{cl}{tag}", replay=rp)
+
+    want_nodes, want = model["nodes"], model["recs"]
+    chk(len(loaded["node_list"]) == len(want_nodes) and set(loaded["node_list"]) == set(want_nodes)
+        and (not all_md_ok or set(loaded["nodes"]) == set(want_nodes)),
+        "same nodes (including isolated ones)", lambda: sorted(want_nodes, key=repr),
+        lambda: {"get_nodes()": loaded["node_list"], "get_nodes(metadata=True)": sorted(loaded["nodes"], key=repr)})
+    chk(set(loaded["records"]) == set(want), "same hyperedges with their direction, times or layers",
+        lambda: sorted(map(repr, want)), lambda: sorted(map(repr, loaded["records"])))
+    chk(loaded["weighted"] == spec["weighted"], "same weightedness", spec["weighted"], loaded["weighted"])
+    common = [k for k in want if k in loaded["records"]]
+    if loaded["weighted"] == spec["weighted"]:
+        exp = {k: (want[k]["w"] if spec["weighted"] else before["records"][k][0]) for k in common}
+        bad = [k for k in common if not loaded["records"][k][0] == exp[k]]
+        chk(not bad, "same weights", lambda: {repr(k): exp[k] for k in bad},
+            lambda: {repr(k): loaded["records"][k][0] for k in bad})
+    chk(loaded["hmeta"] == before["hmeta"], "same hypergraph metadata", before["hmeta"], loaded["hmeta"])
+    badn = [n for n in want_nodes if (n in nv and nv[n] != want_nodes[n])
+            or (all_md_ok and n in loaded["nodes"] and loaded["nodes"][n] != want_nodes[n])]
+    chk(not badn, "same node metadata", lambda: {repr(n): want_nodes[n] for n in badn},
+        lambda: {repr(n): [nv.get(n), loaded["nodes"].get(n)] for n in badn})
+    bade = [k for k in common if strip_reserved(loaded["records"][k][1]) != strip_reserved(want[k]["md"])]
+    chk(not bade, "same hyperedge metadata modulo reserved keys", lambda: {repr(k): want[k]["md"] for k in bade},
+        lambda: {repr(k): loaded["records"][k][1] for k in bade})
+    return "done"
+
+
 # ------------------------------------------------------------------------------------------------ hMETIS
 def ref_hgr(text):
     """Reference reader: whitespace separated integers, '%' comment lines, blank lines ignored."""
@@ -907,6 +1316,7 @@ def _task_rng(seed, task):
 
 
 N_PARTS = 2
+N_HPARTS = 3
 
 
 def _worker(args):
@@ -933,6 +1343,18 @@ def _worker(args):
                 if j % 4 == 1:
                     spec["detour"] = True
                 _rt(sink, rep, spec, tmp)
+        elif what == "hist-small":
+            _, kind, weighted, labelkind, part = task
+            has_clear = hasattr(_cls(kind), "clear")
+            for i, base in enumerate(small_specs(kind, weighted, labelkind, hist_plans(quick)[kind])):
+                if i % N_HPARTS == part:
+                    for spec in scripted_histories(base, i, labelkind, has_clear):
+                        _hist(sink, rep, spec, tmp)
+        elif what == "hist-random":
+            _, kind, weighted, labelkind = task
+            has_clear = hasattr(_cls(kind), "clear")
+            for j in range(150 if quick else 2500):
+                _hist(sink, rep, random_history(rng, kind, weighted, labelkind, has_clear), tmp)
         elif what == "hgr":
             gen = hgr_files_exhaustive(4, lambda v: 3) if quick else hgr_files_exhaustive(5, lambda v: 4 if v <= 4 else 3)
             for i, (text, style, k) in enumerate(gen):
@@ -967,20 +1389,32 @@ def run(ctx):
     ctx.rule("round trip: one case = (object description, file format); objects enumerated over small universes with "
              "all record sets up to the stated size, then seeded random larger ones; non-trivial = the object has at "
              "least one node")
+    ctx.rule("round trip after a history: one case = (list of construction / removal steps, file format); every single "
+             "edit of each scripted kind on every small directly built object, then seeded random step sequences; "
+             "non-trivial = the history contains a remove_node, remove_edge or clear step")
     ctx.rule("hMETIS: one case = one generated file text; non-trivial = at least one hyperedge line")
     ctx.rule("HIF: one case = one generated document; non-trivial = at least one incidence")
     ctx.assume("json and pickle of the standard library are correct")
     ctx.assume("the public getters (get_nodes, get_edges, get_weight, get_edge_metadata, get_hypergraph_metadata, "
                "is_weighted) report the content of a container faithfully (C01-C04)")
+    ctx.assume("histories: an object whose getters do not report the abstract content of its history (computed from the "
+               "steps with plain dicts) is not saved at all; such cases are counted as skipped")
     ctx.assume("weights are compared numerically (2 == 2.0), metadata with Python ==")
     configs = [(k, w, l) for k in "HDTM" for w in (False, True) for l in ("int", "str")]
     tasks = [("small",) + c + (p,) for c in configs for p in range(N_PARTS)]
     tasks += [("random",) + c for c in configs]
+    tasks += [("hist-small",) + c + (p,) for c in configs for p in range(N_HPARTS)]
+    tasks += [("hist-random",) + c for c in configs]
     tasks += [("hgr", p) for p in range(4)] + [("hgr-random",), ("hif", 0), ("hif", 1), ("hif-random",)]
     run_tasks(ctx, _worker, [(ctx.seed, quick, t) for t in tasks])
     ctx.exhaustive_parts.append(
         "all containers of each of the 4 types x {weighted, unweighted} x {int, str labels} over the universes / "
         "record counts %r (n, k) x {.json, .hgx}" % (plans(quick),))
+    ctx.exhaustive_parts.append(
+        "histories: every single edit of each scripted kind (remove_node without / with keep_edges, node re-insertion, "
+        "remove_edge, hyperedge re-insertion, add-then-remove of a node with metadata alone / with a hyperedge, clear "
+        "and refill, emptied by removals and refilled) on all directly built containers over %r (n, k) x 4 types x "
+        "{weighted, unweighted} x {int, str labels} x {.json, .hgx}" % (hist_plans(quick),))
     ctx.exhaustive_parts.append("all .hgr files with <= %s distinct hyperedges over <= %d vertices x 4 header formats "
                                 "(layout style rotating)" % (("3", 4) if quick else ("4 (3 for 5 vertices)", 5)))
     ctx.exhaustive_parts.append("all undirected HIF incidence structures with <= 3 edges of distinct non-empty "
@@ -995,11 +1429,25 @@ def _rt(ctx, rep, spec, tmp):
             ctx.count(f"round trip skipped or cut short: {status} [{KINDS[spec['kind']]}]")
 
 
+def _hist(ctx, rep, spec, tmp):
+    model = hist_model(spec)
+    removing = any(op[0] in REMOVING for op in spec["ops"])
+    for fmt in ("json", "hgx"):
+        ctx.case(hist_desc(spec, model, fmt), nontrivial=removing)
+        status = history_case(rep, spec, fmt, tmp, model)
+        if status != "done":
+            ctx.count(f"history round trip skipped or cut short: {status} [{KINDS[spec['kind']]}; {spec['script']}]")
+
+
 def replay(data):
     rep = Rep()
     with tempfile.TemporaryDirectory(prefix="hv-c06-replay-") as tmp:
         if data["part"] == "roundtrip":
             status = roundtrip_case(rep, data["spec"], data["fmt"], tmp)
+            if status not in ("done", "save raised", "load raised"):
+                return True, f"case not executable on this tree: {status}"
+        elif data["part"] == "history":
+            status = history_case(rep, data["spec"], data["fmt"], tmp)
             if status not in ("done", "save raised", "load raised"):
                 return True, f"case not executable on this tree: {status}"
         elif data["part"] == "hgr":
